@@ -69,8 +69,9 @@ theorem curvature_is_norm (o : Ops ℝ) (i : In ℝ) (hsqrt : ∀ x, o.sqrt x = 
     normal_cylindrical_0 o i = dtdl0 o i / curvature o i ∧
     normal_cylindrical_1 o i = dtdl1 o i / curvature o i ∧
     normal_cylindrical_2 o i = dtdl2 o i / curvature o i := by
-  refine ⟨?_, rfl, rfl, rfl⟩
-  rw [← hsqrt]; rfl
+  refine ⟨?_, ?_, ?_, ?_⟩
+  · rw [← hsqrt]; qsc_rfl [dtdl0, dtdl1, dtdl2, speedSq]
+  all_goals qsc_rfl [dtdl0, dtdl1, dtdl2, speedSq]
 
 theorem d_l_d_phi_sq (o : Ops ℝ) (i : In ℝ) (hsqrt : ∀ x, o.sqrt x = Real.sqrt x) (hl : 0 < speedSq i) :
     0 < d_l_d_phi o i ∧ d_l_d_phi o i * d_l_d_phi o i = speedSq i := by
